@@ -19,7 +19,12 @@ let run_z inp obs : string option * string option =
        else
          (* the end event carries the error the client was told about *)
          let codes = Stdlib.List.map Util.int_of_nat (EventsSpec.end_codes l) in
+         let failing_handler = String.length v > 5 && String.sub v 0 5 = "herr-" in
+         let over_grpc = Stdlib.String.contains v '@' in
          match codes with
+         | [0] when failing_handler -> (Some (what ^ ": the handler returned an error, the End event carries none"), None)
+         | [_] when failing_handler && (not over_grpc) && status = "200" -> (Some (what ^ ": the handler returned an error, the client was answered 200"), None)
+         | [_] when failing_handler && over_grpc -> (None, None)   (* gRPC: the HTTP status is 200 also for an error *)
          | [c] when (status = "200") = (c = 0) -> (None, None)
          | [_] when String.length v > 8 && String.sub v 0 8 = "timeout:" -> (None, None)   (* gRPC: the HTTP status is 200 also for an error *)
          | _ -> (Some (what ^ ": the End event does not say what the client was told (an error iff the status is not 200)"), None)
